@@ -2,9 +2,12 @@ package checks
 
 import (
 	"bytes"
+	"crypto/sha256"
 	"encoding/json"
 	"errors"
 	"fmt"
+	"github.com/trustbloc/bbs-signature-go/bbs12381g2pub"
+	"github.com/trustbloc/kms-go/doc/jose/jwk"
 	"github.com/trustbloc/sidetree-go/pkg/util/ecsigner"
 	"strings"
 
@@ -526,6 +529,34 @@ func clientKey(r *fw.Rand, id string) (sdoc.PublicKey, map[string]interface{}, e
 		exp["purposes"] = toIfaceList(purposes)
 	}
 	useJWK := typ == gen.TJwk2020 || (typ != gen.TX25519 && typ != gen.TBls && r.Bool())
+	if (typ == gen.TX25519 || typ == gen.TBls) && r.Bool() {
+		// key-agreement and BLS keys in JWK form (kty OKP / crv X25519; kty EC / crv BLS12381_G2, one coordinate)
+		var j *jwk.JWK
+		var err error
+		var x []byte
+		if typ == gen.TX25519 {
+			x = r.Bytes(32)
+			j, err = jwksupport.JWKFromX25519Key(x)
+		} else {
+			pub, _, gerr := bbs12381g2pub.GenerateKeyPair(sha256.New, r.Bytes(32))
+			if gerr != nil {
+				return pk, nil, gerr
+			}
+			if x, err = pub.Marshal(); err == nil {
+				j, err = jwksupport.JWKFromKey(pub)
+			}
+		}
+		if err != nil {
+			return pk, nil, err
+		}
+		pk.JWK = *j
+		if typ == gen.TX25519 {
+			exp["publicKeyJwk"] = map[string]interface{}{"kty": "OKP", "crv": "X25519", "x": oracle.B64(x)}
+		} else {
+			exp["publicKeyJwk"] = map[string]interface{}{"kty": "EC", "crv": "BLS12381_G2", "x": oracle.B64(x)}
+		}
+		return pk, exp, nil
+	}
 	if useJWK {
 		curve := gen.Ed25519
 		switch typ {
